@@ -30,8 +30,10 @@ claim("C31",
       "Reducer part: a timeout tick publishes WorkflowTimedOutEvent naming exactly the steps with running invocations, "
       "then halts with WorkflowTimeoutError and marks the run not running; a cancel tick publishes "
       "WorkflowCancelledEvent, halts with WorkflowCancelledByUser and leaves the state untouched (resumable).",
-      "Runner side (scheduling of the timeout tick, cleanup of tasks, interleaving of cancellation with worker "
-      "completion) is trusted.")
+      "Runner side: one structural obligation on the real _ControlLoopRunner.run (AST, replayed by a native scenario): "
+      "scheduled ticks - the run's timeout among them - are promoted only on a wake-up in which no task completed, so "
+      "a completed result is not overtaken by a timer that came due together with it. The rest (scheduling of the "
+      "timeout tick, cleanup of tasks, interleaving of cancellation with worker completion) is trusted.")
 
 na("C17", "end-to-end client/server/httpx composition under connection faults: no contract on repository code "
           "carries the property (DESIGN.md 6)")
@@ -80,8 +82,11 @@ claim("C04",
       "exit command is immediately preceded by the publication of the matching terminal event (same StopEvent / "
       "WorkflowFailedEvent with the same exception / WorkflowTimedOutEvent / WorkflowCancelledEvent; idle release is the "
       "documented exception). A raising user retry policy no longer escapes (fix 355c975).",
-      "Runner side (commands after an exit are not executed; stream_published_events stops at the first StopEvent; "
-      "events written concurrently by still-running workers) is trusted.")
+      "Runner side: one structural obligation on the real _ControlLoopRunner (AST, replayed by a native scenario): a "
+      "worker result carrying the StopEvent awaits cleanup_tasks() - cancel every worker task, then wait for all of "
+      "them - before its tick is buffered, so a cancelled sibling cannot publish after the terminal event. The rest "
+      "(commands after an exit are not executed; stream_published_events stops at the first StopEvent; the main "
+      "loop's scheduling) is trusted.")
 
 claim("C08",
       "Both halves are under contract. Tables: validate_catch_error_handlers returns no error IFF the handler set is "
